@@ -6,6 +6,7 @@ driver runs).  Only property theorems and non-vacuity examples live here.
 import MxlVerif.Lemmas.C05Int
 import MxlVerif.Lemmas.C05Raw
 import MxlVerif.Lemmas.C05Py
+import MxlVerif.Lemmas.C16Bridge
 import MxlVerif.Generated.C05Facts
 namespace Mxl.C05
 
@@ -550,6 +551,31 @@ theorem C05_unmapped_passthrough (lv : List (Name × Nat)) (r : BRxn) :
     (∀ il vars c, labelsOf lv c > 0 → plain c ∉ (buildVars lv il vars).map (·.1)) := by
   refine ⟨rfl, ?_, mem_danglingOf lv, fun il vars c hc => plain_not_var lv il vars c hc⟩
   simp [unmappedRaw, List.map_map, Function.comp_def]
+
+/-- **what the driver runs is the model the theorems are about**: for integer maps whose indices lie
+    inside their reaction's positions (`nmaps` = the maps counted from the front), no raw
+    coefficients and natural-number initial positions, the driver's entry point `buildModelPy` is
+    `buildModel` — so `C05_model_dynamics`, `C05_query_isotopomers_are_totals` and C16's model-level
+    theorems speak about the model the correspondence compares with the real `build_model` -/
+theorem C05_model_integer_maps {b : Base} {lv : List (Name × Nat)} {maps : List (Name × List Int)}
+    {nmaps : List (Name × List Nat)} {il : List (Name × List Nat)}
+    (h0 : ∀ r ∈ b.rxns, maps.lookup r.name = none → nmaps.lookup r.name = none)
+    (hn : ∀ r ∈ b.rxns, ∀ lm, maps.lookup r.name = some lm →
+      ∃ lm', normMap (max (nSub lv r) (nProd lv r)) lm = .ok lm' ∧ nmaps.lookup r.name = some lm') :
+    buildModelPy b lv maps [] (il.map fun kp => (kp.1, kp.2.map Int.ofNat)) = buildModel b lv nmaps il := by
+  have hpos : ∀ l : List Nat, natPositions (l.map Int.ofNat) = l := by
+    intro l
+    induction l with
+    | nil => rfl
+    | cons a l ih => simp [natPositions] at ih ⊢; exact ih
+  unfold buildModelPy
+  rw [buildModelP_nil, ← buildModelI_eq_nat b lv maps nmaps il h0 hn]
+  congr 1
+  rw [List.map_map]
+  conv => rhs; rw [← List.map_id il]
+  apply List.map_congr_left
+  intro kp _
+  simp [hpos]
 
 /-- the facts regenerated from the current `label_map.py` by `translate/c05.py` are the ones the
     model is written for: every mirrored function has its modelled statement shape (no decorator,
